@@ -3,6 +3,7 @@
 package pubsub
 
 import (
+	pb "github.com/libp2p/go-libp2p-pubsub/pb"
 	"github.com/libp2p/go-libp2p/core/peer"
 	"github.com/libp2p/go-libp2p/core/protocol"
 )
@@ -328,3 +329,59 @@ func vpHT_C01_gs_tri_sss_c()   { vpNetComposeGS(3, []int{1, 1, 1}, [][2]int{{0, 
 func vpH_C01_gs_tri_ssb_r()    { vpNetComposeGS(3, []int{1, 1, 0}, [][2]int{{0, 1}, {1, 2}, {0, 2}}, 1) }
 func vpH_C01_gs_line4_ssss_c() { vpNetComposeGS(4, []int{1, 1, 1, 1}, [][2]int{{0, 1}, {1, 2}, {2, 3}}, 0) }
 func vpH_C01_gs_line4_srrs_r() { vpNetComposeGS(4, []int{1, 2, 2, 1}, [][2]int{{0, 1}, {1, 2}, {2, 3}}, 1) }
+
+// ---- single-node lemma of the gossip-repair clause (step-inductive): whatever a gossipsub node's per-heartbeat
+// flood-protection counters were (ARBITRARY history), after its next heartbeat (1) an IHAVE from a peer at or above the
+// gossip threshold that advertises an unseen ID on a joined topic is answered with an IWANT for exactly that ID, and
+// (2) the IWANT of such a peer for a message forwarded fewer than HistoryLength heartbeats ago is served. Composed over
+// the nodes of a settled network this is the "one round of IHAVE/IWANT gossip" the statement relies on for links that
+// are not in the eager-push mesh; a budget that is never replenished (lifetime instead of per-heartbeat) breaks it.
+func vpH_C01_gs_repair_step() {
+	vpOpt("unwind", 8)
+	w := vpNewWorld(vpWorldCfg{P: 1, params: vpGossipParams(), scoring: true, noFanout: true})
+	gs, ps := w.n.gs, w.n.ps
+	vpAssume(w.up[0] && w.joined)
+	p := w.peers[0]
+	have0, asked0, dw0 := vpInt("peerhave_pre", 0, 5), vpInt("iasked_pre", 0, 5), vpInt("peerdontwant_pre", 0, 5)
+	if have0 > 0 {
+		gs.peerhave[p] = have0
+	}
+	if asked0 > 0 {
+		gs.iasked[p] = asked0
+	}
+	if dw0 > 0 {
+		gs.peerdontwant[p] = dw0
+	}
+	// a message forwarded `age` heartbeats ago
+	m := vpMkMsg("A", "1", vpT0)
+	m.ReceivedFrom = "self"
+	gs.mcache.Put(m)
+	age := vpInt("heartbeats_since_forwarded", 0, 3)
+	for s := 0; s < 3; s++ {
+		if s < age {
+			gs.mcache.Shift()
+		}
+	}
+	if vpBool("other_id_seen") {
+		ps.markSeen("B7")
+	}
+	gs.heartbeat()
+	vpDrain(w.q[0])
+	below := w.score[0] < gs.gossipThreshold
+	t := vpT0
+	out := gs.handleIHave(p, &pb.ControlMessage{Ihave: []*pb.ControlIHave{{TopicID: &t, MessageIDs: []string{"X9"}}}})
+	if below {
+		vpAssert(len(out) == 0, "IHAVE from below the gossip threshold is ignored")
+	} else {
+		vpAssert(len(out) == 1 && len(out[0].GetMessageIDs()) == 1 && out[0].GetMessageIDs()[0] == "X9", "after a heartbeat, an IHAVE for an unseen ID on a joined topic is answered with an IWANT for it, whatever the earlier counters were")
+	}
+	served := gs.handleIWant(p, &pb.ControlMessage{Iwant: []*pb.ControlIWant{{MessageIDs: []string{"A1"}}}})
+	alive := age+1 < gs.params.HistoryLength
+	if !below && alive {
+		vpAssert(len(served) == 1 && served[0] == m.Message, "an IWANT for a message forwarded fewer than HistoryLength heartbeats ago is served")
+	} else {
+		vpAssert(len(served) == 0, "nothing is served below the gossip threshold or after HistoryLength heartbeats")
+	}
+	vpCover(!below && asked0 >= gs.params.MaxIHaveLength, "the IWANT budget of the previous heartbeat was exhausted")
+	vpCover(!below && have0 > gs.params.MaxIHaveMessages, "the IHAVE budget of the previous heartbeat was exhausted")
+}
